@@ -582,6 +582,9 @@ func checkBodyAssigned(c *Ctx, ev *tmpl.Evaluator) {
 	}
 	// top-level strategy atoms: one of them holds for every non-stream body
 	strategy := []string{".HasModelBodyParams", ".HasSimpleBodyParams", ".IsInterface", ".IsBase64"}
+	for _, a := range strategy {
+		atoms[a] = true // a body kind the template never tests is still a body kind
+	}
 	keys := sortedKeys(atoms)
 	if len(keys) > 18 {
 		c.Unk(rule, "bodyvalidator › assignments of the decoded body", l.Tree.File, fmt.Sprintf("%d atoms: too many for small-model evaluation", len(keys)))
